@@ -688,6 +688,7 @@ const double TOL_SUM = 1e-4;      // property text
 const double TOL_UNIFORM = 1e-4;  // property text / DESIGN
 const double TOL_FACTOR = 1e-5;   // DESIGN: options differ by the global factor only
 const double TOL_OVERLOAD = 1e-5; // DESIGN: all overloads and the two-step composition agree
+const double TOL_ROUTES = 5e-5;   // routes through the transaxial overloads (different arithmetic: per-plane 2D zoom, z not resampled)
 
 Result
 check_zoom(const json& c)
@@ -945,9 +946,9 @@ check_zoom(const json& c)
             VF_TRY(same_grid(grid_of(d), vwant.g, cat("zoom_image(image,zoom,x_off,y_off,size) (", option_names[o], ") grid vs 3D overload with zoom_z=1")));
             // The 3D overload resamples z as well, with zoom_z = v_in/(v_in/1) and an offset from the recomputed origin, which
             // are 1 and 0 only up to float rounding (STIR is compiled with -ffast-math): the two routes sample grids that
-            // differ by `shift` voxels, so they may differ by 2*shift*max; allowed: TOL_OVERLOAD + 4*shift.
+            // differ by `shift` voxels, so they may differ by 2*shift*max; allowed: TOL_ROUTES + 8*shift.
             const double shift_d = grid_shift(grid_of(d), vwant.g) + grid_shift(vwant.g, vin.g, true, false, false);
-            const double tol_d = TOL_OVERLOAD + 4 * shift_d;
+            const double tol_d = TOL_ROUTES + 8 * shift_d;
             stats().maxi("zoom: max allowed rel diff transaxial overloads vs 3D overload", tol_d);
             if (same_index_range(grid_of(d), vwant.g))
               {
@@ -955,7 +956,7 @@ check_zoom(const json& c)
                 double worst = 0;
                 for (std::size_t i = 0; i < vd.d.size(); ++i)
                   worst = std::max(worst, std::fabs(vd.d[i] - vwant.d[i]));
-                stats().maxi("zoom: max (observed / allowed) transaxial overloads vs 3D overload", worst / std::max(vwant.maxabs(), SD) / tol_d);
+                stats().maxi("zoom: max (observed / allowed) transaxial overloads vs 3D overload", worst / std::max(std::max(vwant.maxabs(), SD), 1e-30) / tol_d);
               }
             VF_TRY(same_values(vol_of(d), vwant, tol_d, cat("zoom_image(image,zoom,x_off,y_off,size) (", option_names[o], ") vs 3D overload with zoom_z=1"),
                                "zoom: max rel diff transaxial overloads vs 3D overload", SD));
@@ -970,16 +971,17 @@ check_zoom(const json& c)
                                 CartesianCoordinate3D<int>(sizes.z(), nxy, nxy), opt);
             VF_TRY(same_grid(grid_of(two), gout, cat("two steps (transaxial overload then z) (", option_names[o], ") grid vs one call")));
             // the grids of the two routes agree only up to float rounding of the recomputed origins and voxel sizes, and the
-            // second step resamples x,y once more at zoom 1 +- rounding: allowed TOL_OVERLOAD + 4*(shift in voxels)
-            const double shift_e = grid_shift(grid_of(two), gout) + grid_shift(grid_of(dip), grid_of(two), false, true, true);
-            const double tol_e = TOL_OVERLOAD + 4 * shift_e;
+            // second step resamples x,y once more at zoom 1 +- rounding: allowed TOL_ROUTES + 8*(shift in voxels)
+            const double shift_e = grid_shift(grid_of(two), gout) + grid_shift(grid_of(dip), grid_of(two), false, true, true)
+                                   + grid_shift(grid_of(dip), vin.g, true, false, false);
+            const double tol_e = TOL_ROUTES + 8 * shift_e;
             stats().maxi("zoom: max allowed rel diff two-step (parameter overloads) vs one call", tol_e);
             {
               const Vol vtwo = vol_of(two);
               double worst = 0;
               for (std::size_t i = 0; i < vtwo.d.size(); ++i)
                 worst = std::max(worst, std::fabs(vtwo.d[i] - vA[o].d[i]));
-              stats().maxi("zoom: max (observed / allowed) two-step (parameter overloads) vs one call", worst / std::max(vA[o].maxabs(), S[o]) / tol_e);
+              stats().maxi("zoom: max (observed / allowed) two-step (parameter overloads) vs one call", worst / std::max(std::max(vA[o].maxabs(), S[o]), 1e-30) / tol_e);
             }
             VF_TRY(same_values(vol_of(two), vA[o], tol_e, cat("two steps (transaxial overload then z) (", option_names[o], ") vs one call"),
                                "zoom: max rel diff two-step (parameter overloads) vs one call", S[o]));
@@ -1273,13 +1275,13 @@ fixed_cases(int tier)
   // SSRB on predefined scanners (sizes kept moderate through max_delta)
   struct F
   {
-    int type, span, max_delta, mash, nseg, nviews, trim, max_in_seg;
+    int type, span, max_delta, mash, nseg, nviews, trim, max_in_seg, tang_less;
   };
-  std::vector<F> fs = { { int(Scanner::E931), 1, 4, 1, 3, 4, 0, -1 },
-                        { int(Scanner::E931), 3, 4, 2, 3, 2, 10, -1 },
-                        { int(Scanner::RATPET), 1, 7, 1, 5, 3, -3, 6 } };
+  std::vector<F> fs = { { int(Scanner::E931), 1, 4, 1, 3, 4, 0, -1, 0 },
+                        { int(Scanner::E931), 3, 4, 2, 3, 2, 10, -1, 0 },
+                        { int(Scanner::RATPET), 1, 7, 1, 5, 4, -3, 6, 6 } };
   if (tier == 1)
-    fs.push_back({ int(Scanner::E953), 3, 7, 1, 5, 2, 0, -1 });
+    fs.push_back({ int(Scanner::E953), 3, 7, 1, 5, 2, 0, -1, 0 });
   for (auto& f : fs)
     {
       shared_ptr<Scanner> sc(new Scanner(static_cast<Scanner::Type>(f.type)));
@@ -1292,7 +1294,7 @@ fixed_cases(int tier)
       c["pdi"] = { { "span", f.span },
                    { "max_delta", f.max_delta },
                    { "views", ndet / 2 / f.mash },
-                   { "tang", sc->get_max_num_non_arccorrected_bins() },
+                   { "tang", sc->get_max_num_non_arccorrected_bins() - f.tang_less },
                    { "arccorr", false },
                    { "tof_mash", 0 },
                    { "trim", json::object() } };
